@@ -7,6 +7,7 @@
 namespace sim {
 
 #define MAX_WATCHED (globals().deep ? 6 : 4)
+int max_watched() { return MAX_WATCHED; }
 #define MAX_MONS (globals().deep ? 10 : 6)
 static const int MAX_TRACERS = 3;
 
@@ -17,13 +18,13 @@ static std::string squeeze(const std::string& s) {
 }
 
 // ---- monitor statements: one source line each ----
-static EP make_mon0(trompeloeil::deathwatched<Plain>* w, trompeloeil::sequence**, unsigned& line) { line = __LINE__; return NAMED_REQUIRE_DESTRUCTION(*w); }
-static EP make_mon1(trompeloeil::deathwatched<Plain>* w, trompeloeil::sequence** s, unsigned& line) { auto& s0 = *s[0]; line = __LINE__; return NAMED_REQUIRE_DESTRUCTION(*w).IN_SEQUENCE(s0); }
-static EP make_mon2(trompeloeil::deathwatched<Plain>* w, trompeloeil::sequence** s, unsigned& line) { auto& s0 = *s[0]; auto& s1 = *s[1]; line = __LINE__; return NAMED_REQUIRE_DESTRUCTION(*w).IN_SEQUENCE(s0, s1); }
+template <class W> static EP make_mon0(W* w, trompeloeil::sequence**, unsigned& line) { line = __LINE__; return NAMED_REQUIRE_DESTRUCTION(*w); }
+template <class W> static EP make_mon1(W* w, trompeloeil::sequence** s, unsigned& line) { auto& s0 = *s[0]; line = __LINE__; return NAMED_REQUIRE_DESTRUCTION(*w).IN_SEQUENCE(s0); }
+template <class W> static EP make_mon2(W* w, trompeloeil::sequence** s, unsigned& line) { auto& s0 = *s[0]; auto& s1 = *s[1]; line = __LINE__; return NAMED_REQUIRE_DESTRUCTION(*w).IN_SEQUENCE(s0, s1); }
 // scoped forms: the requirement is a local of this frame and lives as long as the continuation runs
-static void smon0(trompeloeil::deathwatched<Plain>* w, trompeloeil::sequence**, unsigned& line, std::function<void()>& k) { line = __LINE__; REQUIRE_DESTRUCTION(*w); k(); }
-static void smon1(trompeloeil::deathwatched<Plain>* w, trompeloeil::sequence** s, unsigned& line, std::function<void()>& k) { auto& s0 = *s[0]; line = __LINE__; REQUIRE_DESTRUCTION(*w).IN_SEQUENCE(s0); k(); }
-static void smon2(trompeloeil::deathwatched<Plain>* w, trompeloeil::sequence** s, unsigned& line, std::function<void()>& k) { auto& s0 = *s[0]; auto& s1 = *s[1]; line = __LINE__; REQUIRE_DESTRUCTION(*w).IN_SEQUENCE(s0, s1); k(); }
+template <class W> static void smon0(W* w, trompeloeil::sequence**, unsigned& line, std::function<void()>& k) { line = __LINE__; REQUIRE_DESTRUCTION(*w); k(); }
+template <class W> static void smon1(W* w, trompeloeil::sequence** s, unsigned& line, std::function<void()>& k) { auto& s0 = *s[0]; line = __LINE__; REQUIRE_DESTRUCTION(*w).IN_SEQUENCE(s0); k(); }
+template <class W> static void smon2(W* w, trompeloeil::sequence** s, unsigned& line, std::function<void()>& k) { auto& s0 = *s[0]; auto& s1 = *s[1]; line = __LINE__; REQUIRE_DESTRUCTION(*w).IN_SEQUENCE(s0, s1); k(); }
 static unsigned g_mon_line[6] = {0, 0, 0, 0, 0, 0};
 const MonShape& mon_shape(int nseq, bool scoped) {
   static MonShape t[6];
@@ -266,7 +267,7 @@ void ExecImpl::op_new_watched(const Op& op) {
   if (static_cast<int>(M.live_watched().size()) >= MAX_WATCHED) return;
   MWatched w; w.id = static_cast<int>(M.watched.size()); w.kind = 0;
   M.watched.push_back(w);
-  if (!shadow) rwatched.push_back(new trompeloeil::deathwatched<Plain>(op.a[1]));
+  if (!shadow) { rwatched.resize(M.watched.size(), nullptr); rwatched_mock.resize(M.watched.size(), nullptr); rwatched[static_cast<size_t>(w.id)] = new trompeloeil::deathwatched<Plain>(op.a[1]); }
 }
 
 void ExecImpl::op_req_destruction(const Op& op, std::function<void()>* scope_body) {
@@ -319,8 +320,10 @@ void ExecImpl::op_req_destruction(const Op& op, std::function<void()>* scope_bod
     obs_stack.push_back(&oc);
     bool threw = false;
     try {
-      auto* w = rwatched[static_cast<size_t>(wid)];
-      if (nseq == 0) smon0(w, sq2, g_mon_line[3], inner); else if (nseq == 1) smon1(w, sq2, g_mon_line[4], inner); else smon2(w, sq2, g_mon_line[5], inner);
+      auto* wm = rwatched_mock[static_cast<size_t>(wid)];
+      if (wm) { auto* w = wm; if (nseq == 0) smon0(w, sq2, g_mon_line[3], inner); else if (nseq == 1) smon1(w, sq2, g_mon_line[4], inner); else smon2(w, sq2, g_mon_line[5], inner); }
+      else { auto* w = rwatched[static_cast<size_t>(wid)];
+      if (nseq == 0) smon0(w, sq2, g_mon_line[3], inner); else if (nseq == 1) smon1(w, sq2, g_mon_line[4], inner); else smon2(w, sq2, g_mon_line[5], inner); }
     } catch (scope_abort const&) {}
     catch (...) { threw = true; }
     obs_stack.pop_back();
@@ -335,7 +338,10 @@ void ExecImpl::op_req_destruction(const Op& op, std::function<void()>* scope_bod
   trompeloeil::sequence* sq[2] = {nullptr, nullptr};
   for (int i = 0; i < nseq; ++i) sq[i] = rseqs[static_cast<size_t>(m.seq[i])].get();
   EP ep;
-  if (nseq == 0) ep = make_mon0(rwatched[static_cast<size_t>(wid)], sq, g_mon_line[0]);
+  if (auto* wm = rwatched_mock[static_cast<size_t>(wid)]) {
+    if (nseq == 0) ep = make_mon0(wm, sq, g_mon_line[0]); else if (nseq == 1) ep = make_mon1(wm, sq, g_mon_line[1]); else ep = make_mon2(wm, sq, g_mon_line[2]);
+  }
+  else if (nseq == 0) ep = make_mon0(rwatched[static_cast<size_t>(wid)], sq, g_mon_line[0]);
   else if (nseq == 1) ep = make_mon1(rwatched[static_cast<size_t>(wid)], sq, g_mon_line[1]);
   else ep = make_mon2(rwatched[static_cast<size_t>(wid)], sq, g_mon_line[2]);
   obs_stack.pop_back();
@@ -348,8 +354,22 @@ void ExecImpl::op_req_destruction(const Op& op, std::function<void()>* scope_bod
 void ExecImpl::op_destroy_watched(const Op& op) {
   int wid = pick(M.live_watched(), op.a[0]);
   if (wid < 0) return;
-  MWatched& w = M.watched[wid];
+  if (M.watched[wid].mock >= 0) { if (!busy_mocks.count(M.watched[wid].mock)) destroy_watched_mock(M.watched[wid].mock); return; }
   std::vector<XRep> want;
+  watched_death_model(wid, want);
+  nontriv("C13"); nontriv("C14");
+  if (shadow) return;
+  Obs o; obs_stack.push_back(&o);
+  delete rwatched[static_cast<size_t>(wid)];
+  rwatched[static_cast<size_t>(wid)] = nullptr;
+  obs_stack.pop_back();
+  check_reports(o, want, true, "destruction of a watched object", "C13,C15,C05");
+  check_no_ok(o, "destroy_watched");
+}
+
+// the model side of a watched object's death: what must (not) be reported, which requirements become satisfied
+void ExecImpl::watched_death_model(int wid, std::vector<XRep>& want) {
+  MWatched& w = M.watched[wid];
   if (w.monitors.empty()) {
     XRep x; x.kind = RK_UNEXPECTED; x.fatal = false; want.push_back(x);
     ++st.p_monitor_unexpected;
@@ -383,18 +403,10 @@ void ExecImpl::op_destroy_watched(const Op& op) {
   }
   w.alive = false;
   w.monitors.clear();
-  nontriv("C13"); nontriv("C14");
-  if (shadow) return;
-  Obs o; obs_stack.push_back(&o);
-  delete rwatched[static_cast<size_t>(wid)];
-  rwatched[static_cast<size_t>(wid)] = nullptr;
-  obs_stack.pop_back();
-  check_reports(o, want, true, "destruction of a watched object", "C13,C15,C05");
-  check_no_ok(o, "destroy_watched");
 }
 
 void ExecImpl::op_copy_watched(const Op& op, bool move) {
-  int wid = pick(M.live_watched(), op.a[0]);
+  int wid = pick(live_plain_watched(), op.a[0]);   // (a watched mock is neither copyable nor movable)
   if (wid < 0 || static_cast<int>(M.live_watched().size()) >= MAX_WATCHED) return;
   MWatched w; w.id = static_cast<int>(M.watched.size());
   M.watched.push_back(w);
@@ -404,16 +416,18 @@ void ExecImpl::op_copy_watched(const Op& op, bool move) {
   Obs o; obs_stack.push_back(&o);
   auto* src = rwatched[static_cast<size_t>(wid)];
   // a const source selects the implicit copy constructor, a non-const lvalue the forwarding constructor template
-  if (move) rwatched.push_back(new trompeloeil::deathwatched<Plain>(std::move(*src)));
-  else if (op.a[1] & 1) rwatched.push_back(new trompeloeil::deathwatched<Plain>(static_cast<const trompeloeil::deathwatched<Plain>&>(*src)));
-  else rwatched.push_back(new trompeloeil::deathwatched<Plain>(*src));
+  rwatched.resize(M.watched.size(), nullptr); rwatched_mock.resize(M.watched.size(), nullptr);
+  auto*& slot = rwatched[M.watched.size() - 1];
+  if (move) slot = new trompeloeil::deathwatched<Plain>(std::move(*src));
+  else if (op.a[1] & 1) slot = new trompeloeil::deathwatched<Plain>(static_cast<const trompeloeil::deathwatched<Plain>&>(*src));
+  else slot = new trompeloeil::deathwatched<Plain>(*src);
   obs_stack.pop_back();
   std::vector<XRep> none;
   check_reports(o, none, false, "copy/move construction of a watched object", "C13");
 }
 
 void ExecImpl::op_assign_watched(const Op& op) {
-  std::vector<int> live = M.live_watched();
+  std::vector<int> live = live_plain_watched();
   if (live.size() < 2) return;
   int dst = pick(live, op.a[0]);
   int src = pick(live, op.a[1]);
